@@ -404,5 +404,27 @@ impl CasObject {
 //@ end
 }
 
+// C07 at table level: what `serialize` stores and what the accessors compute from it agree with the input chunk list --
+// the byte range of chunks a..b is [bytes written for chunks 0..a, bytes written for chunks 0..b), and the uncompressed
+// length of the range is the distance of the input's unpacked boundaries.
+proof fn lemma_tables_roundtrip(data: Seq<u8>, c: Seq<(MerkleHash, u32)>, scheme: Option<CompressionScheme>, cas: CasObject, a: int, b: int)
+    requires
+        // (postcondition of `CasObject::serialize`)
+        cas.info.unpacked_chunk_offsets@.len() == c.len(), cas.info.chunk_boundary_offsets@.len() == c.len(),
+        forall|i: int| 0 <= i < c.len() ==> cas.info.unpacked_chunk_offsets@[i] == c[i].1,
+        forall|i: int| 0 <= i < c.len() ==> cas.info.chunk_boundary_offsets@[i] == written_sum(data, c, scheme, i + 1),
+        0 <= a < b <= c.len(),
+    ensures
+        // (what get_byte_offset(a, b) returns)
+        prev_or_zero(cas.info.chunk_boundary_offsets@, a) == written_sum(data, c, scheme, a),
+        cas.info.chunk_boundary_offsets@[b - 1] == written_sum(data, c, scheme, b),
+        // (what uncompressed_range_length(a, b) returns)
+        range_len(cas.info.unpacked_chunk_offsets@, a, b) == c[b - 1].1 - bound_before(c, a),
+        // (what uncompressed_chunk_length(a) returns)
+        chunk_len(cas.info.unpacked_chunk_offsets@, a) == c[a].1 - bound_before(c, a),
+{
+    lemma_range_len_telescopes(cas.info.unpacked_chunk_offsets@, a, b);
+}
+
 } // verus!
 fn main() {}
